@@ -117,6 +117,23 @@ func judgeC03(key string, o *drive.Outcome) h.Result {
 	if skipFE(&r, o) {
 		return r
 	}
+	if !o.SrcValid && o.Status == "accepted" && len(o.OutErrs) == 0 && o.NCmpEmit > 0 {
+		// not Go source, but accepted and lowered to valid Go (a language extension): type the syntax the builder holds
+		r.Count("emitted_syntax_type_comparisons", int64(o.NCmpEmit))
+		r.NonTrivial = true
+		if len(o.EmitDiffs) > 0 {
+			r.Verdict = h.Violated
+			r.Kind = "emitted-type: " + diffStr(o.EmitDiffs[0])
+			var ds []string
+			for _, d := range o.EmitDiffs {
+				ds = append(ds, diffStr(d))
+			}
+			r.Detail = "input is not valid Go but is accepted and lowered; reported type differs from go/types' type of the syntax the builder holds:\n" + firstN(ds, 4)
+		} else {
+			r.Detail = fmt.Sprintf("extension lowered to valid Go; %d operand types equal", o.NCmpEmit)
+		}
+		return r
+	}
 	if !comparable3(o) {
 		r.Verdict, r.Kind = h.Skip, "no-correspondence(see C01/C02/C17)"
 		return r
